@@ -244,10 +244,23 @@ func c12Build(sys, curve string, set, vset int, sess []byte) *proofInst {
 			p := &facproof.ProofFac{P: v[4], Q: v[5], A: v[6], B: v[7], T: v[8], Sigma: v[9], Z1: v[10], Z2: v[11], W1: v[12], W2: v[13], V: v[14]}
 			return p.Verify(s, cv.EC, v[0], v[1], v[2], v[3])
 		}
-		in.shifts["A*s^d,z1+d"] = func(d *big.Int, v []*big.Int) []*big.Int {
-			o := vecCopy(v)
+		in.shifts["A*s^d,T*Q^d,z1+d"] = func(d *big.Int, v []*big.Int) []*big.Int {
+			o := vecCopy(v) // z1 occurs in two equations: s^z1 t^w1 = A P^e and Q^z1 t^v = T R^e
 			o[6] = mulMod(v[6], expMod(v[2], d, v[1]), v[1])
+			o[8] = mulMod(v[8], expMod(v[5], d, v[1]), v[1])
 			o[10] = new(big.Int).Add(v[10], d)
+			return o
+		}
+		in.shifts["B*t^d,w2+d"] = func(d *big.Int, v []*big.Int) []*big.Int {
+			o := vecCopy(v)
+			o[7] = mulMod(v[7], expMod(v[3], d, v[1]), v[1])
+			o[13] = new(big.Int).Add(v[13], d)
+			return o
+		}
+		in.shifts["T*t^d,v+d"] = func(d *big.Int, v []*big.Int) []*big.Int {
+			o := vecCopy(v)
+			o[8] = mulMod(v[8], expMod(v[3], d, v[1]), v[1])
+			o[14] = new(big.Int).Add(v[14], d)
 			return o
 		}
 		in.shifts["B*s^d,z2+d"] = func(d *big.Int, v []*big.Int) []*big.Int {
@@ -287,6 +300,17 @@ func c12Build(sys, curve string, set, vset int, sess []byte) *proofInst {
 			o := vecCopy(v)
 			o[7] = mulMod(v[7], expMod(v[3], d, v[1]), v[1])
 			o[10] = new(big.Int).Add(v[10], d)
+			return o
+		}
+		in.shifts["u*rho^N,s*rho"] = func(d *big.Int, v []*big.Int) []*big.Int {
+			o := vecCopy(v)
+			rho := add(new(big.Int).Mod(d, add(v[0], -2)), 2)
+			if new(big.Int).GCD(nil, nil, rho, v[0]).Cmp(one) != 0 {
+				return nil
+			}
+			N2 := mul(v[0], v[0])
+			o[6] = mulMod(v[6], expMod(rho, v[0], N2), N2)
+			o[8] = mulMod(v[8], rho, v[0])
 			return o
 		}
 	case "bob", "bobwc":
@@ -339,6 +363,29 @@ func c12Build(sys, curve string, set, vset int, sess []byte) *proofInst {
 				}
 				o[18], o[19] = U2.X(), U2.Y()
 			}
+			return o
+		}
+		in.shifts["zprm*h2^d,s2+d"] = func(d *big.Int, v []*big.Int) []*big.Int {
+			o := vecCopy(v)
+			o[7] = mulMod(v[7], expMod(v[3], d, v[1]), v[1])
+			o[13] = new(big.Int).Add(v[13], d)
+			return o
+		}
+		in.shifts["w*h2^d,t2+d"] = func(d *big.Int, v []*big.Int) []*big.Int {
+			o := vecCopy(v)
+			o[10] = mulMod(v[10], expMod(v[3], d, v[1]), v[1])
+			o[15] = new(big.Int).Add(v[15], d)
+			return o
+		}
+		in.shifts["v*rho^N,s*rho"] = func(d *big.Int, v []*big.Int) []*big.Int {
+			o := vecCopy(v)
+			rho := add(new(big.Int).Mod(d, add(v[0], -2)), 2)
+			if new(big.Int).GCD(nil, nil, rho, v[0]).Cmp(one) != 0 {
+				return nil
+			}
+			N2 := mul(v[0], v[0])
+			o[9] = mulMod(v[9], expMod(rho, v[0], N2), N2)
+			o[11] = mulMod(v[11], rho, v[0])
 			return o
 		}
 		in.shifts["w*h1^d,v*G^d,t1+d"] = func(d *big.Int, v []*big.Int) []*big.Int {
